@@ -461,9 +461,22 @@ fn terminal_variants(t: &PathProofTerminal, pool: &Pool, lookup: &Key) -> Vec<(&
     out
 }
 
+/// Positions of a sibling list that are mutated: all of them up to 24 siblings; for deeper
+/// proofs (keys diverging at bit 127/254/255) the first eight, the middle and the last four.
+fn mutated_positions(n: usize) -> Vec<usize> {
+    if n <= 24 {
+        (0..n).collect()
+    } else {
+        let mut v: Vec<usize> = (0..8).collect();
+        v.push(n / 2);
+        v.extend(n - 4..n);
+        v
+    }
+}
+
 fn sibling_list_variants(s: &[Node], pool: &Pool) -> Vec<(&'static str, Vec<Node>)> {
     let mut out = vec![];
-    for i in 0..s.len() {
+    for i in mutated_positions(s.len()) {
         for b in [0usize, 7, 255] {
             let mut m = s.to_vec();
             m[i][b / 8] ^= 0x80 >> (b % 8);
@@ -482,13 +495,13 @@ fn sibling_list_variants(s: &[Node], pool: &Pool) -> Vec<(&'static str, Vec<Node
         let mut m = s.to_vec();
         m.insert(i, s[i]);
         out.push(("sibling-duplicated", m));
-        for j in i + 1..s.len() {
+        for j in mutated_positions(s.len()).into_iter().filter(|j| *j > i) {
             let mut m = s.to_vec();
             m.swap(i, j);
             out.push(("sibling-swapped", m));
         }
     }
-    for l in 0..s.len() {
+    for l in mutated_positions(s.len()) {
         out.push(("siblings-truncated", s[..l].to_vec()));
     }
     for n in &pool.nodes {
@@ -1110,18 +1123,18 @@ impl Engine for ProofX {
                 p
             }
             "C08" => {
-                let (smax, qmax, wmax) = if thorough { (4, 3, 2) } else { (2, 2, 1) };
+                let (smax, qmax, wmax) = if thorough { (4, 3, 2) } else { (3, 2, 1) };
                 let cases = masks_upto(12, smax)
                     .into_iter()
                     .map(|(m, k)| json!({"mode": "c08", "s": m, "bound": k, "qmax": qmax, "wmax": wmax, "two_step": thorough && k <= 2}))
                     .collect();
-                let mut p = Plan::new(cases, format!("proofx: for every key set S of ≤{smax} keys from the 12-key family: every honest PathProof (verified with each of the 12 family keys as lookup key; mutants with 3 lookup keys) and every honest MultiProof over ≤{qmax} queries, and every object one step of the mutation grammar away (sibling bit flips at bits 0/7/255, sibling replaced by every node of a pool [terminator, every sibling/root of this trie and of the 12 tries differing in one key, every leaf hash over the family], deleted/duplicated/swapped siblings, every truncation, extension/prepending by every pool node, terminal leaf<->terminator, leaf key/value replaced by every other family leaf, terminator depth ±1/extremes and altered path, multi depth ±1, paths dropped/duplicated/swapped/prefix-related, whole-object and part-wise cross-splicing with the neighbour tries; two steps for |S|≤2 in the thorough tier); every accepted object (verify == Ok against the honest root) must confirm only true value / non-existence statements about the 12 keys + 1 outside probe × 2 value classes, and every update verified through it over every write set of ≤{wmax} ops must return Err or the reference root. One case = one S."));
+                let mut p = Plan::new(cases, format!("proofx: for every key set S of ≤{smax} keys from the 12-key family: every honest PathProof (verified with each of the 12 family keys as lookup key; mutants with 3 lookup keys) and every honest MultiProof over ≤{qmax} queries, and every object one step of the mutation grammar away (sibling bit flips at bits 0/7/255, sibling replaced by every node of a pool [terminator, every sibling/root of this trie and of the 12 tries differing in one key, every leaf hash over the family], deleted/duplicated/swapped siblings, every truncation (sibling positions: all for proofs of ≤24 siblings, the first 8 + middle + last 4 for deeper ones), extension/prepending by every pool node, terminal leaf<->terminator, leaf key/value replaced by every other family leaf, terminator depth ±1/extremes and altered path, multi depth ±1, paths dropped/duplicated/swapped/prefix-related, whole-object and part-wise cross-splicing with the neighbour tries; two steps for |S|≤2 in the thorough tier); every accepted object (verify == Ok against the honest root) must confirm only true value / non-existence statements about the 12 keys + 1 outside probe × 2 value classes, and every update verified through it over every write set of ≤{wmax} ops must return Err or the reference root. One case = one S."));
                 p.budget_s = if thorough { 1700 } else { 45 };
                 p.assumptions = vec!["collision resistance of Blake3 (the only way a mutated object may verify is by being structurally equivalent)".into()];
                 p
             }
             "C18" => {
-                let (smax, qmax) = if thorough { (4, 3) } else { (2, 2) };
+                let (smax, qmax) = if thorough { (4, 3) } else { (3, 2) };
                 let cases = masks_upto(12, smax)
                     .into_iter()
                     .map(|(m, k)| json!({"mode": "c18", "s": m, "bound": k, "qmax": qmax}))
@@ -1129,7 +1142,7 @@ impl Engine for ProofX {
                 let mut p = Plan::new(cases, format!("proofx: every object of the C08 mutation grammar without the 'verifies' filter plus structural extremes (depth ∈ {{0,1,255,256,257,2^63,usize::MAX}}, 255..300 siblings, empty/duplicated/prefix-related path lists, key slices of length 0/3/len/256, operation lists empty/unsorted/duplicated/out-of-scope/all-keys), over every key set S of ≤{smax} keys; each public verifier entry point (PathProof::verify, confirm_*, verify_update, verify_multi_proof, confirm_*_with_index for every valid index, find_index_for, verify_multi_proof_update) is called under catch_unwind in an isolated child process with a timeout; any panic / abort / timeout is a violation, fingerprinted by (entry point, mutation class, panic class)."));
                 p.budget_s = if thorough { 1700 } else { 45 };
                 p.isolate = true;
-                p.case_timeout_s = 120;
+                p.case_timeout_s = 600;
                 p.timeout_is_violation = true;
                 p
             }
